@@ -5,6 +5,8 @@ use crate::query::Query;
 
 impl Query for FilterAtom {
     fn process<'a, T: Queryable>(&self, state: State<'a, T>) -> State<'a, T> {
+        #[cfg(jsonpath_rust_verif)]
+        crate::verif::point(5);
         match self {
             FilterAtom::Filter { expr, not } => {
                 let bool_res = expr.process(state);
